@@ -398,6 +398,36 @@ pub fn map_space(tb: &Tables, tier: Tier) -> Vec<Maps> {
     for var in 0..3 {
         out.push(Maps { v: vec![], o: (0..no).map(|i| (i, files_variant(i + var, 1 + (i + var) % 3))).collect(), q: vec![] });
     }
+    // the same (file, line) is a finding of several patterns at once (one source line often matches two patterns):
+    // every pair of patterns of a category with identical, with overlapping and with nested findings; all patterns
+    // of a category with the same findings; the same findings in all three categories
+    {
+        let same: Files = vec![("Pool.sol".into(), [12, 40].into_iter().collect()), ("Vault.sol".into(), [7].into_iter().collect())];
+        let over: Files = vec![("Pool.sol".into(), [12, 18].into_iter().collect()), ("Zed.sol".into(), [7].into_iter().collect())];
+        let sub: Files = vec![("Pool.sol".into(), [12].into_iter().collect())];
+        for (n, cat) in [(nv, 0), (no, 1), (nq, 2)] {
+            let mk = |items: Vec<(usize, Files)>| match cat {
+                0 => Maps { v: items, o: vec![], q: vec![] },
+                1 => Maps { v: vec![], o: items, q: vec![] },
+                _ => Maps { v: vec![], o: vec![], q: items },
+            };
+            for a in 0..n {
+                for b in 0..n {
+                    if a == b {
+                        continue;
+                    }
+                    if a < b {
+                        out.push(mk(vec![(a, same.clone()), (b, same.clone())]));
+                    }
+                    out.push(mk(vec![(a, same.clone()), (b, over.clone())]));
+                    out.push(mk(vec![(a, same.clone()), (b, sub.clone())]));
+                }
+            }
+            out.push(mk((0..n).map(|i| (i, same.clone())).collect()));
+            out.push(mk((0..n).map(|i| (i, if i % 2 == 0 { same.clone() } else { sub.clone() })).collect()));
+        }
+        out.push(Maps { v: (0..nv).map(|i| (i, same.clone())).collect(), o: (0..no).map(|i| (i, same.clone())).collect(), q: (0..nq).map(|i| (i, same.clone())).collect() });
+    }
     // all 8 presence combinations of the three categories (through generate_report)
     for mask in 0u32..8 {
         for var in 0..(if tier == Tier::Quick { 4 } else { 16 }) {
